@@ -27,7 +27,7 @@ TInit == /\ tid \in 1..NTraces
                  /\ pc = "pixel"
             ELSE /\ cfg = [k |-> Traces[tid].k, ds |-> Traces[tid].ds, ep |-> Traces[tid].ep, rm |-> Traces[tid].rm,
                            ridges |-> [i \in 1..Len(Traces[tid].ridges) |->
-                                          [y |-> Traces[tid].ridges[i].y, x0 |-> Traces[tid].ridges[i].x0,
+                                          [dy |-> Traces[tid].ridges[i].dy, y |-> Traces[tid].ridges[i].y, x0 |-> Traces[tid].ridges[i].x0,
                                            x1 |-> Traces[tid].ridges[i].x1, a2 |-> Traces[tid].ridges[i].a2,
                                            d2 |-> Traces[tid].ridges[i].d2]]]
                  /\ pc = "maps"
@@ -67,25 +67,38 @@ InvRotU(q) == CASE cfg.k = 0 -> q
 Along(p) == IF AlongX THEN p[1] ELSE p[2]
 Perp(p) == IF AlongX THEN p[2] ELSE p[1]
 NearPt(p, e) == Abs(Along(p) - Along(e)) <= TolAlong /\ Abs(Perp(p) - Perp(e)) <= TolPerp
+\* a sloped ridge is reported through a few resampled points with integer map rows: one more map pixel of slack across the line
+TolP(r) == IF r.dy = 0 THEN TolPerp ELSE TolPerp + cfg.ds * U
+NearPtR(p, e, r) == Abs(Along(p) - Along(e)) <= TolAlong /\ Abs(Perp(p) - Perp(e)) <= TolP(r)
 MinOf(S) == CHOOSE m \in S : \A o \in S : m <= o
 MaxOf(S) == CHOOSE m \in S : \A o \in S : m >= o
 
+\* coordinates in tenths of a pixel (products of two of them stay inside TLC's 32-bit integers)
+T10(v) == v \div 100
 LineMatches(ln, r) ==
     LET e0 == InvRotU(<<U * cfg.ds * r.x0, U * cfg.ds * r.y>>)
-        e1 == InvRotU(<<U * cfg.ds * r.x1, U * cfg.ds * r.y>>)
+        e1 == InvRotU(<<U * cfg.ds * r.x1, U * cfg.ds * (r.y + r.dy)>>)
         n == Len(ln.pts)
         ha == Max2(U, cfg.ds * r.a2 * 500)          \* baseline_to_textline uses max(1, height)
         hd == Max2(U, cfg.ds * r.d2 * 500)
-        \* outline rectangle in the rotated frame, corners moved to the original frame
-        c1 == InvRotU(<<U * cfg.ds * r.x0, U * cfg.ds * r.y - ha>>)
-        c2 == InvRotU(<<U * cfg.ds * r.x1, U * cfg.ds * r.y + hd>>)
+        ylo == IF r.dy >= 0 THEN r.y ELSE r.y + r.dy
+        yhi == IF r.dy >= 0 THEN r.y + r.dy ELSE r.y
+        \* outline bounding rectangle in the rotated frame, corners moved to the original frame
+        c1 == InvRotU(<<U * cfg.ds * r.x0, U * cfg.ds * ylo - ha>>)
+        c2 == InvRotU(<<U * cfg.ds * r.x1, U * cfg.ds * yhi + hd>>)
+        da == T10(Along(e1)) - T10(Along(e0))
+        dp == T10(Perp(e1)) - T10(Perp(e0))
     IN /\ n >= 2
-       /\ NearPt(ln.pts[1], e0) /\ NearPt(ln.pts[n], e1)
-       /\ \A j \in 1..n : Abs(Perp(ln.pts[j]) - Perp(e0)) <= TolPerp
+       /\ NearPtR(ln.pts[1], e0, r) /\ NearPtR(ln.pts[n], e1, r)
+       \* every point lies within TolPerp of the straight line through the ridge's end points (flat ridge: dp = 0)
+       /\ \A j \in 1..n : Abs((T10(Perp(ln.pts[j])) - T10(Perp(e0))) * da - dp * (T10(Along(ln.pts[j])) - T10(Along(e0))))
+                              <= T10(TolP(r)) * Abs(da)
        /\ Abs(ln.h[1] - cfg.ds * r.a2 * 500) <= 10 * cfg.ds
        /\ Abs(ln.h[2] - cfg.ds * r.d2 * 500) <= 10 * cfg.ds
-       /\ Abs(ln.tl[1] - MinOf({c1[1], c2[1]})) <= TolAlong /\ Abs(ln.tl[3] - MaxOf({c1[1], c2[1]})) <= TolAlong
-       /\ Abs(ln.tl[2] - MinOf({c1[2], c2[2]})) <= TolAlong /\ Abs(ln.tl[4] - MaxOf({c1[2], c2[2]})) <= TolAlong
+       \* (the outline of a sloped line is offset along slanted normals: one more map pixel of slack for its bounding box)
+       /\ LET tb == TolAlong + (IF r.dy = 0 THEN 0 ELSE cfg.ds * U)
+          IN /\ Abs(ln.tl[1] - MinOf({c1[1], c2[1]})) <= tb /\ Abs(ln.tl[3] - MaxOf({c1[1], c2[1]})) <= tb
+             /\ Abs(ln.tl[2] - MinOf({c1[2], c2[2]})) <= tb /\ Abs(ln.tl[4] - MaxOf({c1[2], c2[2]})) <= tb
 Bijections == {f \in [1..NL -> 1..NL] : \A i, j \in 1..NL : i # j => f[i] # f[j]}
 OneLinePerRidge == \E f \in Bijections : \A i \in 1..NL : LineMatches(L[i], cfg.ridges[f[i]])
 RegTol == 6 * U
@@ -98,7 +111,7 @@ RegionsCover == /\ Tr.nreg >= 1
 ExactLine(ln, r) ==
     LET e == IF cfg.ep THEN 0 ELSE 3
         q0 == RotateLayout(cfg.k, <<RotH, RotW>>, <<cfg.ds * (r.x0 - e), cfg.ds * r.y>>)
-        q1 == RotateLayout(cfg.k, <<RotH, RotW>>, <<cfg.ds * (r.x1 + e), cfg.ds * r.y>>)
+        q1 == RotateLayout(cfg.k, <<RotH, RotW>>, <<cfg.ds * (r.x1 + e), cfg.ds * (r.y + r.dy)>>)
     IN ln.pts[1] = <<U * q0[1], U * q0[2]>> /\ ln.pts[Len(ln.pts)] = <<U * q1[1], U * q1[2]>>
 ExactLines == \E f \in Bijections : \A i \in 1..NL : ExactLine(L[i], cfg.ridges[f[i]])
 
@@ -118,7 +131,8 @@ RidgeFailing == IF Tr.outcome # "ok" THEN 1
                 ELSE IF ~RegionsCover THEN 4
                 ELSE IF ~UnrotWithinOnePixel THEN 7                         \* original-image coordinates within one pixel
                 ELSE IF Level = "exact" /\ (Tr.seen[1] # RotH \/ Tr.seen[2] # RotW) THEN 5
-                ELSE IF Level = "exact" /\ ~ExactLines THEN 6
+                \* (the exact end points are modelled for flat ridges only)
+                ELSE IF Level = "exact" /\ (\A i \in 1..Len(cfg.ridges) : cfg.ridges[i].dy = 0) /\ ~ExactLines THEN 6
                 ELSE 0
 
 TNext == /\ UNCHANGED tid
